@@ -146,21 +146,7 @@ def run(ctx):
         ctx.inst('Y3', 'source()', okk, 'Error::source table %s; must be {IoError(err) -> Some(err), _ -> None}' % detail, sb.span, key=sb.name + '|Y3')
 
     # ---------- Y4 one parser
-    rf = ctx.anchor('asefile::file::AsepriteFile::read_file')
-    if rf is not None:
-        t = res(rf).ok_ret()
-        ok = t[0] == 'call' and t[1] == 'asefile::parse::read_aseprite' and t[2][0][0] == 'call' and t[2][0][1] == 'std::io::BufReader::new' \
-            and t[2][0][2][0][0] == 'call' and t[2][0][2][0][1] == 'std::fs::File::open' and is_param(t[2][0][2][0][2][0], 1)
-        ctx.inst('Y4', 'read_file', ok, 'read_file = %s; must be read_aseprite(BufReader::new(File::open(path)?))' % show(t), rf.span, key=rf.name + '|Y4')
-        for c in q.calls(rf, 'std::fs::File::open'):
-            fates = q.result_fates(rf, c.dest['l'])
-            ctx.inst('Y4', 'read_file#open', bool(fates) and all(f[0] == 'try' for f in fates), 'File::open error is ?-propagated (-> IoError)',
-                     c.span, key=rf.name + '|Y4|open')
-    rd = ctx.anchor('asefile::file::AsepriteFile::read')
-    if rd is not None:
-        t = res(rd).ret()
-        ok = t[0] == 'call' and t[1] == 'asefile::parse::read_aseprite' and is_param(t[2][0], 1)
-        ctx.inst('Y4', 'read', ok, 'read = %s; must be read_aseprite(input)' % show(t), rd.span, key=rd.name + '|Y4')
+    iorules.entry_points(ctx, 'Y4')
     ns = common.error_discipline(ctx, load + entry, 'P8')
     ctx.floor('fallible call sites', ns, 150)
     ctx.samples = [i for i in ctx.instances if i['rule'] in ('Y1', 'Y2', 'Y3', 'Y4')][:18]
